@@ -9,7 +9,8 @@ Definition esc_char (c : N) : pystr :=
   if c =? 38 then s "&amp;" else if c =? 62 then s "&gt;" else if c =? 60 then s "&lt;" else [c].
 
 Definition esc_attr_char (c : N) : pystr :=
-  if c =? 34 then s "&quot;" else esc_char c.
+  if c =? 34 then s "&quot;" else if c =? 9 then s "&#9;" else if c =? 10 then s "&#10;"
+  else if c =? 13 then s "&#13;" else esc_char c.
 
 Lemma flat_map_flat_map {A B C} (f : B -> list C) (g : A -> list B) (l : list A) :
   flat_map f (flat_map g l) = flat_map (fun x => flat_map f (g x)) l.
@@ -24,6 +25,11 @@ Proof. intro H. induction l as [|x l IH]; simpl; [reflexivity|]. rewrite H, IH. 
 
 Lemma eqb_cases (c : N) :
   c = 38 \/ c = 62 \/ c = 60 \/ c = 34 \/ (c <> 38 /\ c <> 62 /\ c <> 60 /\ c <> 34).
+Proof. lia. Qed.
+
+Lemma eqb_cases7 (c : N) :
+  c = 38 \/ c = 62 \/ c = 60 \/ c = 34 \/ c = 9 \/ c = 10 \/ c = 13 \/
+  (c <> 38 /\ c <> 62 /\ c <> 60 /\ c <> 34 /\ c <> 9 /\ c <> 10 /\ c <> 13).
 Proof. lia. Qed.
 
 Ltac neqb :=
@@ -42,10 +48,12 @@ Qed.
 
 Lemma escape_attr_flat x : escape_attr x = flat_map esc_attr_char x.
 Proof.
-  unfold escape_attr. rewrite escape_flat. unfold replace1. rewrite flat_map_flat_map.
+  unfold escape_attr. rewrite escape_flat. unfold replace1. rewrite !flat_map_flat_map.
   apply flat_map_ext'. intro c. unfold esc_attr_char, esc_char.
-  destruct (eqb_cases c) as [->|[->|[->|[->|(H1 & H2 & H3 & H4)]]]]; try reflexivity.
-  neqb. simpl. neqb. reflexivity.
+  destruct (eqb_cases7 c) as [->|[->|[->|[->|[->|[->|[->|(H1 & H2 & H3 & H4 & H5 & H6 & H7)]]]]]]];
+    try reflexivity.
+  neqb. cbn [flat_map app]. neqb. cbn [flat_map app]. neqb. cbn [flat_map app]. neqb.
+  cbn [flat_map app]. neqb. reflexivity.
 Qed.
 
 Lemma escape_app a b : escape (a ++ b) = escape a ++ escape b.
@@ -72,51 +80,60 @@ Proof.
   destruct (c =? 62); [simpl in Hc; discriminate|]. reflexivity.
 Qed.
 
-(** * The grammar of escaped text: plain characters and predefined entity references *)
+(** * The grammar of escaped text: plain characters and references *)
+Definition text_refs : list pystr := [s "amp"; s "lt"; s "gt"].
+Definition attr_refs : list pystr := [s "amp"; s "lt"; s "gt"; s "quot"; s "#9"; s "#10"; s "#13"].
+
 Inductive escaped (attr : bool) : pystr -> Prop :=
 | esc_nil : escaped attr []
-| esc_plain c l : c <> 38 -> c <> 60 -> c <> 62 -> (attr = true -> c <> 34) ->
+| esc_plain c l : c <> 38 -> c <> 60 -> c <> 62 ->
+                  (attr = true -> c <> 34 /\ c <> 9 /\ c <> 10 /\ c <> 13) ->
                   escaped attr l -> escaped attr (c :: l)
-| esc_ent e l : In e [s "amp"; s "lt"; s "gt"] \/ (attr = true /\ e = s "quot") ->
+| esc_ent e l : In e (if attr then attr_refs else text_refs) ->
                 escaped attr l -> escaped attr ([38] ++ e ++ [59] ++ l).
 
 Lemma escaped_no (attr : bool) l k : escaped attr l ->
-  (k = 60 \/ k = 62 \/ (attr = true /\ k = 34)) -> ~ In k l.
+  (k = 60 \/ k = 62 \/ (attr = true /\ (k = 34 \/ k = 9 \/ k = 10 \/ k = 13))) -> ~ In k l.
 Proof.
   intros H Hk. induction H as [|c l H1 H2 H3 H4 _ IH|e l He _ IH].
   - simpl; tauto.
   - intros [E|E]; [|exact (IH E)]. subst c.
-    destruct Hk as [->|[->|[A ->]]]; [congruence|congruence|exact (H4 A eq_refl)].
+    destruct Hk as [->|[->|[A Hk]]]; [congruence|congruence|].
+    destruct (H4 A) as (Q1 & Q2 & Q3 & Q4). lia.
   - intro Hin. simpl in Hin. destruct Hin as [E|Hin]; [lia|].
     apply in_app_or in Hin as [Hin|Hin].
-    + destruct He as [He|[_ ->]].
-      * simpl in He. destruct He as [<-|[<-|[<-|[]]]]; simpl in Hin; lia.
-      * simpl in Hin; lia.
+    + assert (He' : In e attr_refs).
+      { destruct attr; [exact He|]. simpl in He. simpl. tauto. }
+      simpl in He'.
+      destruct He' as [<-|[<-|[<-|[<-|[<-|[<-|[<-|[]]]]]]]]; simpl in Hin; lia.
     + simpl in Hin. destruct Hin as [E|Hin]; [lia|exact (IH Hin)].
 Qed.
 
 Theorem escape_clean x : escaped false (escape x).
 Proof.
-  rewrite escape_flat. induction x as [|c x IH]; simpl; [constructor|].
-  unfold esc_char.
-  destruct (eqb_cases c) as [->|[->|[->|[->|(H1 & H2 & H3 & H4)]]]]; simpl.
-  - refine (esc_ent false (s "amp") _ _ IH). left; simpl; auto.
-  - refine (esc_ent false (s "gt") _ _ IH). left; simpl; auto.
-  - refine (esc_ent false (s "lt") _ _ IH). left; simpl; auto.
-  - apply esc_plain; [lia|lia|lia|discriminate|exact IH].
-  - neqb. simpl. apply esc_plain; auto; discriminate.
+  rewrite escape_flat. induction x as [|c x IH]; [constructor|].
+  cbn [flat_map]. unfold esc_char.
+  destruct (eqb_cases c) as [->|[->|[->|[->|(H1 & H2 & H3 & H4)]]]].
+  - refine (esc_ent false (s "amp") _ _ IH). simpl; auto.
+  - refine (esc_ent false (s "gt") _ _ IH). simpl; auto.
+  - refine (esc_ent false (s "lt") _ _ IH). simpl; auto.
+  - refine (esc_plain false 34 _ _ _ _ _ IH); [lia|lia|lia|discriminate].
+  - neqb. refine (esc_plain false c _ H1 H3 H2 _ IH). discriminate.
 Qed.
 
 Theorem escape_attr_clean x : escaped true (escape_attr x).
 Proof.
-  rewrite escape_attr_flat. induction x as [|c x IH]; simpl; [constructor|].
-  unfold esc_attr_char, esc_char.
-  destruct (eqb_cases c) as [->|[->|[->|[->|(H1 & H2 & H3 & H4)]]]]; simpl.
-  - refine (esc_ent true (s "amp") _ _ IH). left; simpl; auto.
-  - refine (esc_ent true (s "gt") _ _ IH). left; simpl; auto.
-  - refine (esc_ent true (s "lt") _ _ IH). left; simpl; auto.
-  - refine (esc_ent true (s "quot") _ _ IH). right; auto.
-  - neqb. simpl. apply esc_plain; auto.
+  rewrite escape_attr_flat. induction x as [|c x IH]; [constructor|].
+  cbn [flat_map]. unfold esc_attr_char, esc_char.
+  destruct (eqb_cases7 c) as [->|[->|[->|[->|[->|[->|[->|(H1 & H2 & H3 & H4 & H5 & H6 & H7)]]]]]]].
+  - refine (esc_ent true (s "amp") _ _ IH). simpl; auto.
+  - refine (esc_ent true (s "gt") _ _ IH). simpl; auto.
+  - refine (esc_ent true (s "lt") _ _ IH). simpl; auto.
+  - refine (esc_ent true (s "quot") _ _ IH). simpl; auto.
+  - refine (esc_ent true (s "#9") _ _ IH). simpl; auto 10.
+  - refine (esc_ent true (s "#10") _ _ IH). simpl; auto 10.
+  - refine (esc_ent true (s "#13") _ _ IH). simpl; auto 10.
+  - neqb. refine (esc_plain true c _ H1 H3 H2 _ IH). auto.
 Qed.
 
 Corollary escape_no_lt x : ~ In 60 (escape x).
@@ -127,10 +144,12 @@ Corollary escape_attr_no_lt x : ~ In 60 (escape_attr x).
 Proof. apply (escaped_no true); [apply escape_attr_clean | auto]. Qed.
 Corollary escape_attr_no_quote x : ~ In 34 (escape_attr x).
 Proof. apply (escaped_no true); [apply escape_attr_clean | auto]. Qed.
+Corollary escape_attr_no_ws x k : k = 9 \/ k = 10 \/ k = 13 -> ~ In k (escape_attr x).
+Proof. intro H. apply (escaped_no true); [apply escape_attr_clean | right; right; tauto]. Qed.
 
 (** * Decoding escaped text with the parser's text reader *)
 
-Lemma cons_res_app c t r : cons_res c (Some (t, r)) = Some (c :: t, r).
+Lemma starts_with_cons a p b l : starts_with (a :: p) (b :: l) = (a =? b) && starts_with p l.
 Proof. reflexivity. Qed.
 
 (** the head of escaped text is never a greater-than sign *)
@@ -140,32 +159,43 @@ Proof.
   intros E Hr. destruct x as [|c x].
   - simpl in E. destruct Hr as [->|[r ->]]; [discriminate|]. inversion E; lia.
   - rewrite escape_cons in E. unfold esc_char in E.
-    destruct (eqb_cases c) as [->|[->|[->|[->|(H1 & H2 & H3 & H4)]]]]; simpl in E;
-      try (inversion E; lia).
-    revert E. neqb. simpl. intro E. inversion E; subst. exact H2.
+    destruct (eqb_cases c) as [->|[->|[->|[->|(H1 & H2 & H3 & H4)]]]];
+      try (cbn in E; inversion E; lia).
+    revert E. neqb. cbn [app]. intro E. inversion E; subst. exact H2.
 Qed.
 
 Lemma no_cdata_close c x rest :
   (rest = [] \/ exists r, rest = 60 :: r) ->
   starts_with cdata_close (c :: escape x ++ rest) = false.
 Proof.
-  intro Hr. unfold cdata_close. simpl.
-  destruct (93 =? c) eqn:Ec; [|reflexivity]. simpl.
-  destruct (escape x ++ rest) as [|a l] eqn:E; [reflexivity|].
-  destruct (93 =? a) eqn:Ea; [|reflexivity]. simpl.
-  destruct l as [|b l']; [reflexivity|].
+  intro Hr. change cdata_close with [93; 93; 62]. rewrite starts_with_cons.
+  destruct (93 =? c) eqn:Ec; [|reflexivity]. cbn [andb].
+  destruct (escape x ++ rest) as [|a l] eqn:E; [reflexivity|]. rewrite starts_with_cons.
+  destruct (93 =? a) eqn:Ea; [|reflexivity]. cbn [andb].
+  destruct l as [|b l']; [reflexivity|]. rewrite starts_with_cons.
   destruct (62 =? b) eqn:Eb; [|reflexivity]. exfalso.
   apply N.eqb_eq in Ea, Eb. subst a b.
-  (* a = 93 is a plain character: it is the head of x *)
   destruct x as [|c1 x].
   - simpl in E. destruct Hr as [->|[r ->]]; [discriminate|]. inversion E.
   - rewrite escape_cons in E. unfold esc_char in E.
-    destruct (eqb_cases c1) as [->|[->|[->|[->|(H1 & H2 & H3 & H4)]]]]; simpl in E;
-      try (inversion E; fail).
-    + inversion E as [[E1 E2]]. symmetry in E2. apply escape_head_not_gt in E2; auto.
-    + revert E. neqb. simpl. intro E. inversion E as [[E1 E2]].
-      symmetry in E2. apply escape_head_not_gt in E2; auto.
+    destruct (eqb_cases c1) as [->|[->|[->|[->|(H1 & H2 & H3 & H4)]]]];
+      try (cbn in E; inversion E; fail).
+    revert E. neqb. cbn [app]. intro E. inversion E as [[E1 E2]].
+    apply escape_head_not_gt in E2; [congruence|exact Hr].
 Qed.
+
+(** one decoding step per kind of character *)
+Lemma ptext_amp l : ptext 0 TNorm (s "&amp;" ++ l) = cons_res 38 (ptext 0 TNorm l).
+Proof. reflexivity. Qed.
+Lemma ptext_gt l : ptext 0 TNorm (s "&gt;" ++ l) = cons_res 62 (ptext 0 TNorm l).
+Proof. reflexivity. Qed.
+Lemma ptext_lt l : ptext 0 TNorm (s "&lt;" ++ l) = cons_res 60 (ptext 0 TNorm l).
+Proof. reflexivity. Qed.
+
+Lemma ptext_plain c l :
+  c <> 38 -> c <> 60 -> starts_with cdata_close (c :: l) = false ->
+  ptext 0 TNorm (c :: l) = cons_res c (ptext 0 TNorm l).
+Proof. intros H1 H2 H3. cbn [ptext]. neqb. rewrite H3. reflexivity. Qed.
 
 (** main decoding lemma: an escaped string followed by the end of input or by a
     less-than sign that does not open a CDATA section *)
@@ -176,27 +206,20 @@ Proof.
   intro Hr.
   assert (Hr' : rest = [] \/ exists r, rest = 60 :: r) by (destruct Hr as [->|(r & -> & _)]; eauto).
   induction x as [|c x IH].
-  - simpl. destruct Hr as [->|(r & -> & Hc)]; [reflexivity|]. simpl. rewrite Hc. reflexivity.
+  - cbn [escape replace1 flat_map app]. destruct Hr as [->|(r & -> & Hc)]; [reflexivity|].
+    cbn [ptext]. change (60 =? 60) with true. cbv iota. rewrite Hc. reflexivity.
   - rewrite escape_cons. unfold esc_char.
     destruct (eqb_cases c) as [->|[->|[->|[->|(H1 & H2 & H3 & H4)]]]].
-    + change ((if 38 =? 38 then s "&amp;" else _) ++ escape x ++ rest)
-        with (s "&amp;" ++ escape x ++ rest).
-      change (ptext 0 TNorm (s "&amp;" ++ escape x ++ rest))
-        with (cons_res 38 (ptext 0 TNorm (escape x ++ rest))).
-      rewrite IH. reflexivity.
-    + change (ptext 0 TNorm ((if 62 =? 38 then s "&amp;" else if 62 =? 62 then s "&gt;" else _) ++ escape x ++ rest))
-        with (cons_res 62 (ptext 0 TNorm (escape x ++ rest))).
-      rewrite IH. reflexivity.
-    + change (ptext 0 TNorm ((if 60 =? 38 then s "&amp;" else if 60 =? 62 then s "&gt;" else if 60 =? 60 then s "&lt;" else _) ++ escape x ++ rest))
-        with (cons_res 60 (ptext 0 TNorm (escape x ++ rest))).
-      rewrite IH. reflexivity.
-    + change ((if 34 =? 38 then s "&amp;" else if 34 =? 62 then s "&gt;" else if 34 =? 60 then s "&lt;" else [34]) ++ escape x ++ rest)
-        with (34 :: escape x ++ rest).
-      pose proof (no_cdata_close 34 x rest Hr') as Hc.
-      cbn [ptext]. change (34 =? 60) with false. change (34 =? 38) with false. cbv iota.
-      rewrite Hc, IH. reflexivity.
-    + neqb. cbn [app]. pose proof (no_cdata_close c x rest Hr') as Hc.
-      cbn [ptext]. neqb. rewrite Hc, IH. reflexivity.
+    + change (38 =? 38) with true. cbv iota. rewrite <- app_assoc, ptext_amp, IH. reflexivity.
+    + change (62 =? 38) with false. change (62 =? 62) with true. cbv iota.
+      rewrite <- app_assoc, ptext_gt, IH. reflexivity.
+    + change (60 =? 38) with false. change (60 =? 62) with false. change (60 =? 60) with true.
+      cbv iota. rewrite <- app_assoc, ptext_lt, IH. reflexivity.
+    + change (34 =? 38) with false. change (34 =? 62) with false. change (34 =? 60) with false.
+      cbv iota. cbn [app].
+      rewrite ptext_plain, IH; [reflexivity|lia|lia|apply no_cdata_close; exact Hr'].
+    + neqb. cbn [app].
+      rewrite ptext_plain, IH; [reflexivity|exact H1|exact H3|apply no_cdata_close; exact Hr'].
 Qed.
 
 Theorem escape_decode x : xtext_decode (escape x) = Some x.
@@ -206,39 +229,60 @@ Proof.
 Qed.
 
 (** * Attribute values *)
+Lemma pattval_ref e ch l :
+  resolve_ref e = Some ch -> ~ In 59 e ->
+  forall acc, pattval 34 (DRef acc) (e ++ 59 :: l) =
+              match resolve_ref (rev acc ++ e) with
+              | Some ch => cons_res ch (pattval 34 DNorm l)
+              | None => None
+              end.
+Proof.
+  intros _ Hn. induction e as [|c e IH]; intro acc.
+  - cbn [app pattval]. change (59 =? 59) with true. cbv iota. rewrite app_nil_r. reflexivity.
+  - cbn [app pattval]. assert (c <> 59) by (intro; subst; apply Hn; left; reflexivity).
+    neqb. rewrite IH by (intro; apply Hn; right; assumption).
+    cbn [rev]. rewrite <- app_assoc. reflexivity.
+Qed.
+
+Lemma pattval_entity e ch l :
+  resolve_ref e = Some ch -> ~ In 59 e ->
+  pattval 34 DNorm ([38] ++ e ++ 59 :: l) = cons_res ch (pattval 34 DNorm l).
+Proof.
+  intros H Hn. cbn [app pattval]. change (38 =? 34) with false. change (38 =? 60) with false.
+  change (38 =? 38) with true. cbv iota.
+  rewrite (pattval_ref e ch l H Hn []). cbn [rev app]. rewrite H. reflexivity.
+Qed.
+
+Lemma pattval_plain c l :
+  c <> 34 -> c <> 60 -> c <> 38 -> c <> 9 -> c <> 10 -> c <> 13 ->
+  pattval 34 DNorm (c :: l) = cons_res c (pattval 34 DNorm l).
+Proof.
+  intros. cbn [pattval]. neqb. unfold attr_norm. neqb. reflexivity.
+Qed.
+
 Lemma pattval_escape x rest :
-  pattval 34 DNorm (escape_attr x ++ 34 :: rest) = Some (map attr_norm x, rest).
+  pattval 34 DNorm (escape_attr x ++ 34 :: rest) = Some (x, rest).
 Proof.
   induction x as [|c x IH].
   - reflexivity.
   - rewrite escape_attr_cons. unfold esc_attr_char, esc_char.
-    destruct (eqb_cases c) as [->|[->|[->|[->|(H1 & H2 & H3 & H4)]]]].
-    + change (pattval 34 DNorm ((if 38 =? 34 then s "&quot;" else if 38 =? 38 then s "&amp;" else _) ++ escape_attr x ++ 34 :: rest))
-        with (cons_res 38 (pattval 34 DNorm (escape_attr x ++ 34 :: rest))).
-      rewrite IH. reflexivity.
-    + change (pattval 34 DNorm ((if 62 =? 34 then s "&quot;" else if 62 =? 38 then s "&amp;" else if 62 =? 62 then s "&gt;" else _) ++ escape_attr x ++ 34 :: rest))
-        with (cons_res 62 (pattval 34 DNorm (escape_attr x ++ 34 :: rest))).
-      rewrite IH. reflexivity.
-    + change (pattval 34 DNorm ((if 60 =? 34 then s "&quot;" else if 60 =? 38 then s "&amp;" else if 60 =? 62 then s "&gt;" else if 60 =? 60 then s "&lt;" else _) ++ escape_attr x ++ 34 :: rest))
-        with (cons_res 60 (pattval 34 DNorm (escape_attr x ++ 34 :: rest))).
-      rewrite IH. reflexivity.
-    + change (pattval 34 DNorm ((if 34 =? 34 then s "&quot;" else _) ++ escape_attr x ++ 34 :: rest))
-        with (cons_res 34 (pattval 34 DNorm (escape_attr x ++ 34 :: rest))).
-      rewrite IH. reflexivity.
-    + neqb. cbn [app pattval]. neqb. rewrite IH. reflexivity.
+    destruct (eqb_cases7 c) as [->|[->|[->|[->|[->|[->|[->|(H1 & H2 & H3 & H4 & H5 & H6 & H7)]]]]]]].
+    + change (pattval 34 DNorm ([38] ++ s "amp" ++ 59 :: escape_attr x ++ 34 :: rest) = Some (38 :: x, rest)).
+      rewrite (pattval_entity (s "amp") 38), IH; [reflexivity|reflexivity|simpl; lia].
+    + change (pattval 34 DNorm ([38] ++ s "gt" ++ 59 :: escape_attr x ++ 34 :: rest) = Some (62 :: x, rest)).
+      rewrite (pattval_entity (s "gt") 62), IH; [reflexivity|reflexivity|simpl; lia].
+    + change (pattval 34 DNorm ([38] ++ s "lt" ++ 59 :: escape_attr x ++ 34 :: rest) = Some (60 :: x, rest)).
+      rewrite (pattval_entity (s "lt") 60), IH; [reflexivity|reflexivity|simpl; lia].
+    + change (pattval 34 DNorm ([38] ++ s "quot" ++ 59 :: escape_attr x ++ 34 :: rest) = Some (34 :: x, rest)).
+      rewrite (pattval_entity (s "quot") 34), IH; [reflexivity|reflexivity|simpl; lia].
+    + change (pattval 34 DNorm ([38] ++ s "#9" ++ 59 :: escape_attr x ++ 34 :: rest) = Some (9 :: x, rest)).
+      rewrite (pattval_entity (s "#9") 9), IH; [reflexivity|reflexivity|simpl; lia].
+    + change (pattval 34 DNorm ([38] ++ s "#10" ++ 59 :: escape_attr x ++ 34 :: rest) = Some (10 :: x, rest)).
+      rewrite (pattval_entity (s "#10") 10), IH; [reflexivity|reflexivity|simpl; lia].
+    + change (pattval 34 DNorm ([38] ++ s "#13" ++ 59 :: escape_attr x ++ 34 :: rest) = Some (13 :: x, rest)).
+      rewrite (pattval_entity (s "#13") 13), IH; [reflexivity|reflexivity|simpl; lia].
+    + neqb. cbn [app]. rewrite pattval_plain, IH by assumption. reflexivity.
 Qed.
 
-Definition attr_val_ok (v : pystr) : bool :=
-  forallb (fun c => negb ((c =? 9) || (c =? 10) || (c =? 13))) v.
-
-Lemma attr_norm_id v : attr_val_ok v = true -> map attr_norm v = v.
-Proof.
-  induction v as [|c v IH]; simpl; [reflexivity|]. intro H.
-  apply andb_true_iff in H as [Hc Hv]. rewrite (IH Hv). unfold attr_norm.
-  apply negb_true_iff in Hc. rewrite Hc. reflexivity.
-Qed.
-
-Theorem escape_attr_decode x : attr_val_ok x = true -> xattr_decode (escape_attr x) = Some x.
-Proof.
-  intro H. unfold xattr_decode. rewrite pattval_escape, attr_norm_id by exact H. reflexivity.
-Qed.
+Theorem escape_attr_decode x : xattr_decode (escape_attr x) = Some x.
+Proof. unfold xattr_decode. rewrite pattval_escape. reflexivity. Qed.
